@@ -1,5 +1,5 @@
-(* Interpretation of the GENERATED handler sketches (Gen/SshdHandlers.v) into the event record and the
-   result shapes of the hand model (Model/SshdProc.v).  Definitions only.
+(* Interpretation of the GENERATED handler sketches and decision trees (Gen/SshdHandlers.v) into the
+   event record and the result shapes of the hand model (Model/SshdProc.v).  Definitions only.
 
    The interpretation fails closed (None): a key the event record cannot represent, a missing
    mandatory key, a duplicated key, or an event type / component / source type other than the one the
@@ -18,6 +18,15 @@ Definition eval_src (c : cfg) (tok : str) (mt : rmatch) (f : fsrc) : str :=
   | FCfgPid => tok
   | FCfgNode => c_node c
   | FCfgMachineID => c_mid c
+  | FCap2 _ => []            (* not available in a flat sketch: sketch_wf demands plain sources, *)
+  | FLineFrom _ _ => []      (* so these two cases are never reached by a successful interpretation *)
+  end.
+
+(* sources a flat sketch may use: captures of its one regex, constants, processor fields *)
+Definition fsrc_plain (f : fsrc) : bool :=
+  match f with
+  | FCap _ | FConst _ | FCfgPid | FCfgNode | FCfgMachineID => true
+  | FCap2 _ | FLineFrom _ _ => false
   end.
 
 Fixpoint sk_lookup (k : string) (l : list (string * fsrc)) : option fsrc :=
@@ -49,8 +58,15 @@ Definition meta_extra_keys : list string := ["shell"].
 Definition sketch_fixed_ok (hs : hsketch) : bool :=
   String.eqb (hs_action hs) "UserLogin" && String.eqb (hs_component hs) "sshd" && String.eqb (hs_source_type hs) "IP".
 
+Definition sketch_plain (hs : hsketch) : bool :=
+  fsrc_plain (hs_source_value hs)
+  && forallb (fun kv => fsrc_plain (snd kv))
+       (hs_source_extra hs ++ hs_subjects hs ++ hs_target hs ++ hs_meta_extra hs)
+  && match hs_forward hs with Some cred => fsrc_plain cred | None => true end.
+
 Definition sketch_wf (hs : hsketch) : bool :=
   sketch_fixed_ok hs
+  && sketch_plain hs
   && sk_keys_ok source_extra_keys [] (hs_source_extra hs)
   && sk_keys_ok subject_keys subject_mandatory (hs_subjects hs)
   && sk_keys_ok target_keys target_keys (hs_target hs)
@@ -104,3 +120,140 @@ Definition run_sketch (hs : hsketch) (c : cfg) (tok line : str) (wok ready : boo
           end
       end
   end.
+
+(* ================================================================================================
+   Decision trees (hprog): every handler, including the two that branch or use no regex.
+   ================================================================================================ *)
+
+(* what is known on the path: first match, second match, the Atoi'd pid *)
+Record penv := { pe_mt : option rmatch; pe_im : option rmatch; pe_pid : option Z }.
+Definition penv0 : penv := {| pe_mt := None; pe_im := None; pe_pid := None |}.
+
+(* a source that refers to a match the path does not have evaluates to None (fail closed) *)
+Definition eval_psrc (c : cfg) (tok line : str) (env : penv) (f : fsrc) : option str :=
+  match f with
+  | FCap g => option_map (cap g) (pe_mt env)
+  | FCap2 g => option_map (cap g) (pe_im env)
+  | FConst s => Some (s2l s)
+  | FCfgPid => Some tok
+  | FCfgNode => Some (c_node c)
+  | FCfgMachineID => Some (c_mid c)
+  | FLineFrom n fallback => Some (if length line <=? n then s2l fallback else skipn n line)
+  end.
+
+Fixpoint eval_kvs (ev : fsrc -> option str) (l : list (string * fsrc)) : option (list (string * str)) :=
+  match l with
+  | [] => Some []
+  | (k, f) :: r =>
+      match ev f, eval_kvs ev r with
+      | Some v, Some r' => Some ((k, v) :: r')
+      | _, _ => None
+      end
+  end.
+
+Fixpoint kv_lookup (k : string) (l : list (string * str)) : option str :=
+  match l with
+  | [] => None
+  | (k', v) :: r => if String.eqb k k' then Some v else kv_lookup k r
+  end.
+
+Definition hevent_wf (he : hevent) : bool :=
+  String.eqb (he_action he) "UserLogin" && String.eqb (he_component he) "sshd" && String.eqb (he_source_type he) "IP"
+  && sk_keys_ok source_extra_keys [] (he_source_extra he)
+  && sk_keys_ok subject_keys subject_mandatory (he_subjects he)
+  && sk_keys_ok target_keys target_keys (he_target he)
+  && sk_keys_ok meta_extra_keys [] (he_meta_extra he)
+  && sk_nodup (map fst (he_data he)).
+
+Definition event_of_hevent (he : hevent) (c : cfg) (tok line : str) (env : penv) : option event :=
+  if hevent_wf he then
+    let ev := eval_psrc c tok line env in
+    match ev (he_source_value he), eval_kvs ev (he_source_extra he), eval_kvs ev (he_subjects he),
+          eval_kvs ev (he_target he), eval_kvs ev (he_meta_extra he), eval_kvs ev (he_data he) with
+    | Some src, Some se, Some su, Some tg, Some me, Some da =>
+        match kv_lookup "loggedAs" su, kv_lookup "userID" su, kv_lookup "pid" su,
+              kv_lookup "host" tg, kv_lookup "machine-id" tg with
+        | Some la, Some uid, Some pid, Some host, Some mid =>
+            Some {| ev_ok := he_ok he;
+                    ev_src := src;
+                    ev_port := kv_lookup "port" se;
+                    ev_dns := kv_lookup "dns" se;
+                    ev_logged_as := la;
+                    ev_user_id := uid;
+                    ev_pid := pid;
+                    ev_file_path := kv_lookup "filePath" su;
+                    ev_key_type := kv_lookup "keyType" su;
+                    ev_fingerprint := kv_lookup "fingerprint" su;
+                    ev_shell := kv_lookup "shell" me;
+                    ev_data := da;
+                    ev_host := host;
+                    ev_mid := mid |}
+        | _, _, _, _, _ => None
+        end
+    | _, _, _, _, _, _ => None
+    end
+  else None.
+
+(* metrics, write, and (only with an Atoi'd pid on the path) the hand-off *)
+Definition run_leaf (l : hleaf) (c : cfg) (tok line : str) (wok ready : bool) (env : penv) : option result :=
+  match event_of_hevent (hl_event l) c tok line env with
+  | None => None
+  | Some e =>
+      match hl_forward l with
+      | None => Some (write_only wok (hl_metrics l) e)
+      | Some cred =>
+          match pe_pid env, eval_psrc c tok line env cred with
+          | Some pid, Some cr => Some (write_forward wok ready (hl_metrics l) e pid cr)
+          | _, _ => None
+          end
+      end
+  end.
+
+(* a slice expression with a start beyond the end of the string panics *)
+Definition panicked : result := {| r_writes := []; r_forwards := []; r_metrics := []; r_ret := RetPanic |}.
+
+Fixpoint run_prog (p : hprog) (c : cfg) (tok line : str) (wok ready : bool) (env : penv) : option result :=
+  match p with
+  | PWrite l => run_leaf l c tok line wok ready env
+  | PFind re k =>
+      match pe_mt env with
+      | Some _ => None
+      | None =>
+          match find re line with
+          | None => Some nothing
+          | Some mt => run_prog k c tok line wok ready {| pe_mt := Some mt; pe_im := pe_im env; pe_pid := pe_pid env |}
+          end
+      end
+  | PAtoi k =>
+      match pe_pid env with
+      | Some _ => None
+      | None =>
+          match atoi tok with
+          | None => Some nothing
+          | Some pid => run_prog k c tok line wok ready {| pe_mt := pe_mt env; pe_im := pe_im env; pe_pid := Some pid |}
+          end
+      end
+  | PIfWholeLine k_then k_else =>
+      match pe_mt env with
+      | None => None
+      | Some mt =>
+          if Nat.eqb (length line) (m_end mt - m_start mt) then run_prog k_then c tok line wok ready env
+          else run_prog k_else c tok line wok ready env
+      end
+  | PFind2 skip re2 k_none k_some =>
+      match pe_mt env, pe_im env with
+      | Some mt, None =>
+          let start := (m_end mt - m_start mt) + skip in
+          if length line <? start then Some panicked
+          else
+            match find re2 (skipn start line) with
+            | None => run_prog k_none c tok line wok ready env
+            | Some im => run_prog k_some c tok line wok ready {| pe_mt := pe_mt env; pe_im := Some im; pe_pid := pe_pid env |}
+            end
+      | _, _ => None
+      end
+  end.
+
+(* ProcessEntry's handler [h] as go2v read it from the source: generated data only *)
+Definition run_generated (h : handler) (c : cfg) (tok line : str) (wok ready : bool) : option result :=
+  run_prog (handler_prog h) c tok line wok ready penv0.
